@@ -90,6 +90,8 @@ mod hss;
 mod lm_ots;
 mod lms;
 mod util;
+#[cfg(feature = "verif-hooks")]
+pub mod verif_hooks;
 
 // Re-export the `signature` crate
 pub use signature::{self};
